@@ -5,6 +5,8 @@ import (
 	"math"
 	"math/big"
 	"strings"
+
+	"verifharness/ref"
 )
 
 // C02 — operators compute the documented result on the whole operand matrix.
@@ -186,6 +188,15 @@ func c02Run(c *Ctx) {
 		}
 		cs := &Case{Gen: "nested", Src: Print(e) + "\n", X: map[string]string{"op": "nested"}}
 		c02Judge(c, cs)
+		// the same tree written with only the parentheses the documented nesting needs
+		if toks, lerr := ref.Lex([]rune(cs.Src)); len(lerr) == 0 {
+			if prog, perr := ref.NewParser(toks).ParseProgram(); perr == nil {
+				for i, st := range prog {
+					prog[i] = ref.StripGroups(st)
+				}
+				c02Judge(c, &Case{Gen: "nested-minimal-parens", Src: ref.PrintOpts{}.Program(prog), X: map[string]string{"op": "nested"}})
+			}
+		}
 	}
 	// 7. exact integer powers cross-checked with math/big (independent of math.Pow)
 	for base := -12; base <= 12; base++ {
